@@ -28,7 +28,7 @@ def compile_kw():
 def gen(seed, extra):
     rng = random.Random(seed)
     o = dict(qubit_mode=True, p_shuffle_children=0.0, p_rep=0.08, rep_kinds=["constant"], p_through=0.3, p_passthrough=0.25, max_children=4,
-             leaf_inputs=[0, 1, 1, 2, 2], size_thresholds=(0.45, 0.8, 0.8), rich=0.0)
+             leaf_inputs=[0, 1, 1, 2, 2], size_thresholds=(0.45, 0.8, 0.8), rich=0.0, p_zero_size=0.05)
     o.update(extra or {})
     return G.gen_routine(rng, G.Opts(**o))
 
